@@ -339,10 +339,16 @@ fn main() {
 			}
 		}
 		"C18" => {
+			// spawning is CPU-bound: a fixed number of scenarios per shard in the quick tier (the budget is the ceiling), so
+			// that the work done does not depend on the machine
+			let quota: usize = args.extra.get("quota").and_then(|q| q.parse().ok()).unwrap_or(usize::MAX);
 			let mut k = 0usize;
-			while !budget.exhausted() {
+			while k < quota && !budget.exhausted() {
 				spawn::run_one(&args, &mut rng, &mut rep, k);
 				k += 1;
+			}
+			if k < quota && quota != usize::MAX {
+				rep.note("cut short by the time budget before the scenario quota was reached");
 			}
 		}
 		other => {
